@@ -544,6 +544,16 @@ func (fc *FnCtx) applyContractX(c *Contract, name string, args []V, sig *types.S
 	site := fc.srcText(pos, isKind[*ast.CallExpr])
 	if !fc.dry {
 		for _, r := range c.Requires {
+			if fc.c != nil && fc.c.AssumePre != nil {
+				why, ok := fc.c.AssumePre[shortName(name)+"."+r.Label]
+				if !ok {
+					why, ok = fc.c.AssumePre[shortName(name)]
+				}
+				if ok {
+					fc.assumptions[fmt.Sprintf("precondition %s of %s is assumed, not checked, at the calls in %s: %s", r.Label, shortName(name), fc.name, why)] = true
+					continue
+				}
+			}
 			fc.oblige("pre", shortName(name)+"."+r.Label+"{"+site+"}", env.evalBool(r.E), pos, fc.propsOf(c, r), r.Text)
 		}
 	}
